@@ -564,6 +564,10 @@ func (x *exec) evCall(n *ECall, env *Env, hint types.Type) *Val {
 			ne := *env
 			ne.st = env.old
 			return x.ev(n.Args[0], &ne, hint)
+		case "csprng":
+			// csprng(b): the buffer / key object b was filled by the operating system's secure random source
+			v := x.ev(n.Args[0], env, nil)
+			return x.mkVal(Sel(x.h.get(env.st, csprngArr, "(Array Int Bool)"), x.refOf(v)), types.Typ[types.Bool])
 		case "setsum":
 			return x.setSum(n, env)
 		case "wrapu32", "wrapi64", "wrapu64", "wrapi32":
